@@ -2,7 +2,7 @@
 # re-trials all delivered mutations of all waves (no re-confirmation), 4 properties in parallel; log: /var/tmp/trial_final.log
 export NOCONFIRM=1
 LOG=/var/tmp/trial_final.log; : > $LOG
-run_id() { id=$1; for suf in "" 2 3 4 5; do [ -d /tmp/${id}_demo$suf ] && /verif/tools/trial.sh $id "$suf" >> $LOG 2>&1; done; }
+run_id() { id=$1; for suf in "" 2 3 4 5 6 7; do [ -d /tmp/${id}_demo$suf ] && /verif/tools/trial.sh $id "$suf" >> $LOG 2>&1; done; }
 export -f run_id; export LOG
 printf "%s\n" C01 C02 C03 C04 C05 C06 C07 C08 C09 C10 C11 C12 C13 C14 C15 C16 C17 C18 C19 C20 | xargs -P 4 -I{} bash -c 'run_id {}'
 echo DONE >> $LOG
